@@ -61,8 +61,10 @@ def mutants(pattern="*"):
             rc = [l for l in p.stdout.splitlines() if l.startswith("exit=")]
             sigs = [l.split("signature:")[1].split("(runs")[0].strip() for l in p.stdout.splitlines() if "signature:" in l]
             caught = rc and rc[-1] == "exit=1"
-            rows.append({"mutant": name, "property": prop, "caught": bool(caught), "signatures": sigs[:3], "exit": rc[-1] if rc else "?"})
-            print(f"{'CAUGHT' if caught else 'MISSED'}  {name:55s} {prop}  {sigs[:2]} {rc[-1] if rc else p.stdout[-300:]}")
+            import re
+            hits = sum(int(m) for m in re.findall(r"signature: .*?\(runs: (\d+)", p.stdout))
+            rows.append({"mutant": name, "property": prop, "caught": bool(caught), "signatures": sigs[:3], "violating_runs": hits, "runs": int(os.environ.get("MUTANT_RUNS", "3000")), "exit": rc[-1] if rc else "?"})
+            print(f"{'CAUGHT' if caught else 'MISSED'}  {name:55s} {prop}  hits={hits:<5d} {sigs[:2]} {rc[-1] if rc else p.stdout[-300:]}")
     path = os.path.join(VERIF, "evidence", "selftest_mutants.json")
     if pattern != "*" and os.path.exists(path):
         # a partial run replaces the rows it has re-run and keeps the others
